@@ -482,7 +482,7 @@ fn perform_final_layout_on_in_flow_children(
             let y_margin_offset = if is_collapsing_with_first_margin_set && own_margins_collapse_with_children.start {
                 0.0
             } else {
-                active_collapsible_margin_set.collapse_with_margin(resolved_margin.top).resolve()
+                active_collapsible_margin_set.collapse_with_set(top_margin_set).resolve()
             };
 
             item.computed_size = item_layout.size;
